@@ -12,3 +12,9 @@ import (
 // and the retry loop re-checks ctx deterministically. When nil, or when it
 // returns false, behaviour is exactly upstream's.
 var VerifSleep func(ctx context.Context, d time.Duration) bool
+
+// VerifNow is the second seam: when non-nil it replaces time.Now() as the
+// SystemClock that ExponentialBackOff measures its elapsed time with, so that
+// the harness's virtual clock (advanced by lost replies and back-off sleeps)
+// also drives MaxElapsedTime. When nil, behaviour is exactly upstream's.
+var VerifNow func() time.Time
